@@ -158,18 +158,33 @@ def itemsGo : List CItem → List Nat
   | [] => []
   | i :: is => i.go ++ itemsGo is
 
+/-- a count without its leading zeros (the last digit stays) -/
+def stripZ : List Nat → List Nat
+  | [] => []
+  | [c] => [c]
+  | c :: d :: cs => if c = 48 then stripZ (d :: cs) else c :: d :: cs
+
+def Quant.textGo : Quant → List Nat
+  | .star => [42] | .plus => [43] | .opt => [63]
+  | .rep n => 123 :: stripZ n ++ [125]
+  | .repFrom n => 123 :: stripZ n ++ [44, 125]
+  | .repRange n m => 123 :: stripZ n ++ 44 :: stripZ m ++ [125]
+
 def printGo : Re → List Nat
   | .empty => []
   | .ch s => s.go
   | .dot => [46]
   | .cls k => [92, k.letter]
-  | .set neg items => 91 :: (if neg then [94] else []) ++ itemsGo items ++ [93]
+  | .set neg items =>
+    if items.isEmpty then
+      91 :: (if neg then [] else [94]) ++ [92, 120, 48, 48, 45, 92, 120, 123, 49, 48, 70, 70, 70, 70, 125, 93]
+    else 91 :: (if neg then [94] else []) ++ itemsGo items ++ [93]
   | .bol => [94] | .eol => [36] | .wordb => [92, 98] | .nwordb => [92, 66]
   | .group r => 40 :: printGo r ++ [41]
   | .ncgroup r => 40 :: 63 :: 58 :: printGo r ++ [41]
   | .seq a b => printGo a ++ printGo b
   | .alt a b => printGo a ++ 124 :: printGo b
-  | .quant r q l => printGo r ++ q.text ++ lazyText l
+  | .quant r q l => printGo r ++ q.textGo ++ lazyText l
   | .look neg r => 40 :: 63 :: (if neg then 33 else 61) :: printGo r ++ [41]
   | .backref d => [92, d]
 
@@ -258,7 +273,7 @@ def Re.endsOpen : Re → Bool
 /-- Well-formed tree of the ES5 grammar (including the two unsupported constructs). -/
 def Re.wf : Re → Bool
   | .ch s => s.wf
-  | .set _ items => !items.isEmpty ∧ itemsWf items
+  | .set _ items => itemsWf items
   | .group r => r.wf
   | .ncgroup r => r.wf
   | .seq a b => a.wf ∧ b.wf ∧ !a.isAlt ∧ !b.isAlt ∧ !a.endsOpen
